@@ -590,6 +590,13 @@ func (e *Enc) havocArray(st *State, elem types.Type, ref Term) {
 }
 
 func (e *Enc) havocAll(st *State, ghosts bool) {
+	st.epoch = e.B.freshName("ep")
+	if ghosts {
+		for _, g := range append(append([]string{}, e.CS.GhostOrder...), "sends", "nilsends", "recvs") {
+			key, srt, _ := e.ghostKey(g)
+			st.m[key] = e.B.declConst(key+"@havoc", srt)
+		}
+	}
 	keys := map[string]bool{}
 	for k := range stateSorts {
 		keys[k] = true
@@ -609,7 +616,6 @@ func (e *Enc) havocAll(st *State, ghosts bool) {
 			}
 		}
 	}
-	st.m["*havoc"] = e.B.freshName("epoch")
 }
 
 // havocCall abstracts a call without contract: results unconstrained, memory
@@ -753,8 +759,10 @@ func (e *Enc) scanCallMods(fn *ssa.Function, ci ssa.CallInstruction, mods map[st
 		}
 		for _, target := range ct.con.Modifies {
 			switch {
-			case target == "all" || target == "heaps":
+			case target == "all":
 				mods["*"] = true
+			case target == "heaps":
+				mods["*heaps"] = true
 			case strings.HasPrefix(target, "ghost."):
 				key, _, _ := e.ghostKey(strings.TrimPrefix(target, "ghost."))
 				mods[key] = true
